@@ -55,8 +55,8 @@ def run(C, R):
             mod = st.rsplit('::', 1)[0] + '::'
             # R6: over every transition (state methods and functions that reach into the state): the slot is assigned
             # only by send and emptied only towards the caller (broadcast: never emptied)
-            R.floor('C12.R6 slot-accesses[%s] %s' % (cfg, st),
-                    slot_discipline(R, E, F, CG, st, 'C12.R6', may_take=(mode == 'take')), 1)
+            n6 = slot_discipline(R, E, F, CG, st, 'C12.R6', may_take=(mode == 'take'))
+            R.floor('C12.R6 slot-accesses[%s] %s' % (cfg, st), n6, 1)
             # R1 who may write the slot
             nw = 0
             for fn, s in scan_field_writes(F, 'value', mod):
@@ -67,7 +67,9 @@ def run(C, R):
                 else:
                     R.fail('C12.R1', [fn['path'], 'slot-write-outside-send'],
                            'the value slot is assigned in %s' % fn['path'], F.loc(fn, s['ln']))
-            R.floor('C12.R1 slot-writes[%s] %s' % (cfg, st), nw, 1)
+            # (a store through a `&mut Option<T>` handed to a closure or helper is not a field write in the source; R6
+            # sees it as an event on the path)
+            R.floor('C12.R1 slot-writes[%s] %s' % (cfg, st), nw + n6, 1)
             send = F.one_fn(impl_adt=st, name='send')
             paths = E.run(send['path'])
             R.add_paths(send['path'], len(paths))
